@@ -23,10 +23,12 @@ pub fn def() -> CheckDef {
                SymbolicAsyncGraph::new), its colour / element counts must not exceed the graph's, and its BDD support must contain no spare \
                variable. Non-trivial: constrained network and non-empty result; distinct by (network, formula).",
         assumptions: &["context sets supplied to extended formulae are inside the unit set and independent of spare variables (documented contract)"],
-        cases: |t| if t == Tier::Quick { 6000 } else { 400_000 },
+        cases: |t| (if t == Tier::Quick { 6000 } else { 400_000 }) + super::big::count(t),
         needs: |t| {
             let m = if t == Tier::Quick { 1 } else { 30 };
+            let big_min = super::big::count(t) / 2;
             vec![
+                ("big_model_cases_completed", big_min),
                 ("distinct_nontrivial", 500 * m),
                 ("root_prop", 20 * m),
                 ("root_const", 20 * m),
@@ -71,7 +73,12 @@ fn root_name(f: &F) -> String {
     }
 }
 
-fn run(rng: &mut Rng, _idx: u64, tier: Tier) -> CaseOut {
+fn run(rng: &mut Rng, idx: u64, tier: Tier) -> CaseOut {
+    let small: u64 = if tier == Tier::Quick { 6000 } else { 400_000 };
+    if idx >= small {
+        // bundled benchmark-size models (child process, see bigrun.rs / big.rs)
+        return super::big::run("C03", idx - small, rng, tier);
+    }
     let mut nopts = NetOpts::default();
     nopts.kind_weights = [3, 5, 4, 1];
     if tier == Tier::Thorough {
